@@ -117,6 +117,7 @@ func runProperty(id string, pc *PropConfig, repo string, overlay map[string][]by
 		}
 	}
 	eng.KnownFindings = kfByObl
+	changed := eng.ApplyFingerprints(loadFingerprints(id), pc.Funcs)
 	type unit struct {
 		key string
 		em  *vc.Emitter
@@ -147,7 +148,30 @@ func runProperty(id string, pc *PropConfig, repo string, overlay map[string][]by
 			res.Errors = append(res.Errors, "contract out of date: no function "+k)
 			continue
 		}
+		nErr := len(eng.Errors)
 		em, err := eng.VerifyFunc(fn, fc)
+		if changed[k] {
+			// the code differs from the recorded shape: if the contract cannot be applied to it any more, the property
+			// is undecided for this function — reported as a violation, not as an engine error
+			why := ""
+			if err != nil && isContractErr(err.Error()) {
+				why = err.Error()
+			}
+			var keep []string
+			for _, e := range eng.Errors[nErr:] {
+				if isContractErr(e) {
+					why += " " + e
+				} else {
+					keep = append(keep, e)
+				}
+			}
+			if why != "" {
+				eng.Errors = append(eng.Errors[:nErr], keep...)
+				units = append(units, unit{k, undecided(k, strings.TrimSpace(why))})
+				res.Funcs = append(res.Funcs, funcInfo{Key: k, Instrs: vc.CountInstrs(fn), Obls: 1})
+				continue
+			}
+		}
 		if err != nil {
 			res.Errors = append(res.Errors, err.Error())
 			continue
@@ -190,6 +214,9 @@ func runProperty(id string, pc *PropConfig, repo string, overlay map[string][]by
 		sem <- struct{}{}
 		go func(it item) {
 			defer func() { <-sem; done <- struct{}{} }()
+			if it.ob.Result != nil {
+				return // decided without a solver (undecided contract applicability)
+			}
 			solver.SolveAll(it.em, []*vc.Obligation{it.ob})
 		}(it)
 	}
@@ -324,13 +351,21 @@ func report(id string, pc *PropConfig, res *checkResult, tier string, seed int, 
 		}
 		return 2
 	}
-	// vacuity of the whole check
-	if nObl < pc.MinObl {
+	// vacuity of the whole check (not applicable when a function's contract could not be applied to changed code:
+	// its obligations are then replaced by one undecided obligation, reported below)
+	hasUndecided := false
+	for _, ob := range viols {
+		if ob.Kind == "contract" {
+			hasUndecided = true
+		}
+	}
+	if hasUndecided {
+	} else if nObl < pc.MinObl {
 		fmt.Printf("ENGINE ERROR: only %d obligations generated for %s, floor is %d\n", nObl, id, pc.MinObl)
 		return 2
 	}
 	for _, a := range pc.Anchors {
-		if !present[a] {
+		if !present[a] && !hasUndecided {
 			fmt.Printf("ENGINE ERROR: anchor obligation %q was not generated\n", a)
 			return 2
 		}
